@@ -189,7 +189,7 @@ theorem fitting_readOnly (pre : Predef) (env : Env V) (n : Node J V) (hwf : Node
 /-- WrongType / RangeError exactly as the datatype classifies the payload -/
 theorem fitting_badPayload (pre : Predef) (env : Env V) (n : Node J V) (hwf : Node.WF pre n) (spec : Spec) (j : J)
     (m a : String) (ht : target "target" spec = some (m, a)) (mod : Module J V) (p : Param J V)
-    (hex : ExportedParam pre n m a mod p) (hro : p.readonly = false) (hc : p.constant = none) (e : Err)
+    (hex : ExportedParam pre n m a mod p) (hro : p.readonly = false) (hc : p.constant = none) (e : Node.Err)
     (h : p.dt.accept j (some p.entry.value) = .error e) :
     handleChange pre env n spec j = ⟨.error e.cls, [], [], n⟩ := by
   unfold handleChange; rw [ht]; simp only
@@ -303,7 +303,7 @@ theorem do_rejected_is_inert (pre : Predef) (env : Env V) (n : Node J V) (hwf : 
 /-! ### the monitors' property holds of the model, and along every history -/
 
 /-- every request served by the model satisfies the specification that the monitors check on the implementation -/
-theorem request_ok (pre : Predef) (env : Env V) (n : Node J V) (hwf : Node.WF pre n) (r : Request J) :
+theorem request_ok (pre : Predef) (env : Env V) (n : Node J V) (hwf : Node.WF pre n) (r : Request J V) :
     RequestOK pre env n r (obsOf n (step pre env n r)) := by
   cases r with
   | change spec j =>
@@ -350,11 +350,21 @@ theorem request_ok (pre : Predef) (env : Env V) (n : Node J V) (hwf : Node.WF pr
                 · unfold readFailed; split <;> rfl
                 · rfl
             · rfl
+  | assign m attr raw =>
+    simp only [RequestOK, step, obsOf]
+    unfold handleAssign
+    split
+    · rfl
+    · split
+      · split
+        · unfold readFailed; split <;> rfl
+        · rfl
+      · rfl
 
 /-- **histories.**  Along any sequence of requests — including those that move `_min/_max/_limits` —
 with the drivers and hooks behaving differently at every step, every request is judged correctly against
 the node as the earlier requests left it, and the node stays well-formed. -/
-theorem histories (pre : Predef) (n : Node J V) (hwf : Node.WF pre n) (h : List (Env V × Request J)) :
+theorem histories (pre : Predef) (n : Node J V) (hwf : Node.WF pre n) (h : List (Env V × Request J V)) :
     HistoryOK pre n h ∧ Node.WF pre (finalNode pre n h) := by
   induction h generalizing n with
   | nil => exact ⟨trivial, hwf⟩
@@ -363,6 +373,82 @@ theorem histories (pre : Predef) (n : Node J V) (hwf : Node.WF pre n) (h : List 
     have hstep := wf_step pre env n hwf r
     exact ⟨⟨request_ok pre env n hwf r, (ih _ hstep).1⟩, (ih _ hstep).2⟩
 
+
+/-! ### the lock discipline: check and driver call in one critical section -/
+
+section lock
+open Frappy.Node.AccessLock
+
+/-- invariant: a remembered passed check belongs to the holder of the lock and still holds; all calls were within the limit -/
+def LockInv (s : LState) : Prop :=
+  (∀ v, s.passed = some v → s.owner ≠ none ∧ v ≤ s.max) ∧ CallsWithinLimit s
+
+theorem lockInv_step (s s' : LState) (a : Act) (h : LockInv s) (hs : AccessLock.step s a = some s') : LockInv s' := by
+  obtain ⟨hp, hc⟩ := h
+  cases a with
+  | acquire t =>
+    simp only [AccessLock.step] at hs; split at hs
+    · injection hs with hs; subst hs; exact ⟨(by intro v hv; cases hv), hc⟩
+    · cases hs
+  | check t v =>
+    simp only [AccessLock.step] at hs; split at hs
+    · rename_i ho
+      injection hs with hs; subst hs
+      refine ⟨?_, hc⟩
+      intro w hw
+      simp only at hw
+      split at hw
+      · rename_i hle; injection hw with hw; subst hw; exact ⟨(by rw [ho]; simp), hle⟩
+      · cases hw
+    · cases hs
+  | call t v =>
+    simp only [AccessLock.step] at hs; split at hs
+    · rename_i ho
+      injection hs with hs; subst hs
+      refine ⟨hp, ?_⟩
+      intro c hcm
+      simp only [List.mem_append, List.mem_singleton] at hcm
+      rcases hcm with hcm | rfl
+      · exact hc c hcm
+      · exact (hp v ho.2).2
+    · cases hs
+  | move t m =>
+    simp only [AccessLock.step] at hs; split at hs
+    · injection hs with hs; subst hs; exact ⟨(by intro v hv; cases hv), hc⟩
+    · cases hs
+  | release t =>
+    simp only [AccessLock.step] at hs; split at hs
+    · injection hs with hs; subst hs; exact ⟨(by intro v hv; cases hv), hc⟩
+    · cases hs
+
+/-- **calls_within_current_limits.**  Under the lock discipline of the wrappers (check and driver call inside one
+`accessLock` section; a limit is only moved by a thread holding the lock) every driver call — in every interleaving of
+any number of threads — is made with a value inside the limit in force at the moment of the call: no other thread can
+move the limit between the check and the call. -/
+theorem calls_within_current_limits (max : Int) (acts : List Act) (s : LState)
+    (h : AccessLock.run (AccessLock.init max) acts = some s) : CallsWithinLimit s := by
+  have gen : ∀ (acts : List Act) (s0 s : LState), LockInv s0 → AccessLock.run s0 acts = some s → LockInv s := by
+    intro acts
+    induction acts with
+    | nil => intro s0 s h0 hr; injection hr with hr; subst hr; exact h0
+    | cons a rest ih =>
+      intro s0 s h0 hr
+      simp only [AccessLock.run] at hr
+      split at hr
+      · rename_i s1 hs1; exact ih s1 s (lockInv_step s0 s1 a h0 hs1) hr
+      · cases hr
+  exact (gen acts _ s ⟨(by intro v hv; cases hv), (by intro c hc; cases hc)⟩ h).2
+
+/-- non-vacuity: the poller lowers the limit between two requests; the second request is refused (no call) -/
+example : (AccessLock.run (AccessLock.init 100)
+    [.acquire 1, .check 1 60, .call 1 60, .release 1, .acquire 2, .move 2 50, .release 2, .acquire 1, .check 1 60, .release 1]).map
+      (·.calls) = some [(60, 100)] := by decide
+
+/-- the interleaving of the seeded mutant (check before the lock is taken) is not a run of the system -/
+example : AccessLock.run (AccessLock.init 100) [.check 1 60, .acquire 2, .move 2 50, .release 2, .acquire 1, .call 1 60] = none := by
+  decide
+
+end lock
 
 /-! ### table facts (re-checked whenever the repository's table changes) -/
 
